@@ -49,34 +49,34 @@ def run(ctx, chk):
         FWD, INV = roles
         b = an.one(chk, "S-variant-flow", bio, "CodonTable::try_to_amino", name="try_to_amino", trait="translation::PartialTranslationTable", self_re=r"^translation::CodonTable<A, B>$")
         if b:
-            paths, _ = an.analyse(cfg, b)
+            # keyed by the outcome of the lookup (however it is written: ok_or_else().copied(), copied().ok_or_else(), match):
+            #   table.get(codon) = Some(a) -> Ok(*a) ;  None -> Err(InvalidCodon(codon.into()))
+            paths, _ = an.analyse(cfg, b, policy=an.ForkPolicy())
             r = [p for p in paths if p.end == "return"]
-            ok = False
-            got = show(r[0].ret)[:200] if r else "?"
-            if len(r) == 1 and not r[0].guards:
-                t = r[0].ret
-                g = clo = None
-                if an.is_call(t, re.compile(r"Result::<&B, translation::TranslationError<A, B>>::copied$")):
-                    o = t[2][0]
-                    if an.is_call(o, re.compile(r"Option::<&B>::ok_or_else::<")):
-                        g, clo = o[2][0], o[2][1]
-                elif an.is_call(t, re.compile(r"Option::<B>::ok_or_else::<")) and an.is_call(t[2][0], re.compile(r"Option::<&B>::copied$")):
-                    # the same lookup with `.copied()` applied before the error mapping
-                    g, clo = t[2][0][2][0], t[2][1]
-                if g is not None:
-                    if True:
-                        okg = an.is_call(g, re.compile(r"HashMap::<seq::Seq<A>, B>::get::<seq::slice::SeqSlice<A>>$"), (F(P(1), FWD), P(2)))
-                        okc = False
-                        if clo[0] == "closure" and clo[3] == (P(2),):
-                            cb = [x for x in bio.bodies if x["path"] == clo[1]]
-                            if len(cb) == 1:
-                                cps, _ = an.analyse(cfg, cb[0], policy=an.NoInline())
-                                cr = [q for q in cps if q.end == "return"]
-                                if len(cr) == 1 and not cr[0].guards:
-                                    e = cr[0].ret
-                                    okc = e[0] == "agg" and e[3] == "InvalidCodon" and an.is_call(e[4][0], re.compile(r"^CONV<&seq::slice::SeqSlice<A> -> seq::Seq<(A|B)>>$"), (F(P(1), 0),))
-                        ok = okg and okc
-            chk.ob("S-variant-flow", "CodonTable::try_to_amino", ok, "must be table.get(codon).ok_or_else(|| InvalidCodon(codon.into())).copied(); got " + got, b["span"])
+            bad = [p for p in paths if p.end not in ("return", "panic")]
+            getter = re.compile(r"HashMap::<seq::Seq<A>, B>::get::<seq::slice::SeqSlice<A>>$")
+            seen = {}
+            got = "; ".join(p.describe()[:120] for p in r)
+            for p in r:
+                sw = [g for g in p.guards if g[0] == "sw" and isinstance(g[1], tuple) and g[1][0] == "discr" and an.is_call(g[1][1], getter, (F(P(1), FWD), P(2)))]
+                if len(sw) != 1 or len(p.guards) != 1:
+                    seen["?"] = p
+                    continue
+                g = sw[0]
+                some = (g[2] == "==" and g[3] == 1) or (g[2] == "notin" and 1 not in g[3])
+                seen["Some" if some else "None"] = (p, g[1][1])
+            ok = not bad and set(seen) == {"Some", "None"}
+            if ok:
+                ps, T = seen["Some"]
+                pay = F(("downcast", T, 1, "Some"), "0")
+                k, v = opt_kind(ps.ret)
+                oks = k == "Ok" and v in (("deref", pay), pay)
+                pn, _ = seen["None"]
+                k2, e = opt_kind(pn.ret)
+                okn = k2 == "Err" and isinstance(e, tuple) and e[0] == "agg" and e[3] == "InvalidCodon" and \
+                    an.is_call(e[4][0], re.compile(r"^CONV<&seq::slice::SeqSlice<A> -> seq::Seq<(A|B)>>$"), (P(2),))
+                ok = oks and okn
+            chk.ob("S-variant-flow", "CodonTable::try_to_amino", ok, "must be: table.get(codon) Some(a) -> Ok(*a), None -> Err(InvalidCodon(codon.into())); got " + got, b["span"])
             n += 1
         b = an.one(chk, "S-variant-flow", bio, "CodonTable::try_to_codon", name="try_to_codon", trait="translation::PartialTranslationTable", self_re=r"^translation::CodonTable<A, B>$")
         if b:
